@@ -301,6 +301,15 @@ def query_case(case):
         del q['SigAlg']
     elif mut == 'sigalg_unsupported':
         q['SigAlg'] = 'http://www.w3.org/2001/04/xmldsig-more#rsa-md5'
+    elif mut == 'nosigalg_signed':
+        # signed by the requester's key over the parameters without SigAlg, sent without SigAlg
+        from cryptography.hazmat.primitives import hashes
+        from cryptography.hazmat.primitives.asymmetric import padding
+        from urllib.parse import urlencode
+        del q['SigAlg']
+        order = [k for k in (scn['typ'], 'RelayState') if k in q]
+        signed_string = '&'.join(urlencode({k: q[k]}) for k in order).encode('ascii')
+        q['Signature'] = base64.b64encode(_STATE['keys']['kA'].sign(signed_string, padding.PKCS1v15(), hashes.SHA1())).decode('ascii')
     elif mut == 'sig_changed':
         raw = bytearray(base64.b64decode(q['Signature']))
         raw[5] ^= 1
